@@ -60,6 +60,7 @@ struct FnDir {
     /// of the function that matches `anchor` (so that contract text can name a local of the source
     /// without fixing its spelling)
     binds: Vec<(String, String)>,
+    macros_opt: Vec<usize>,
     /// `@@noloops`: this contract (variant) is for a loop-free body: any loop is a lost anchor
     noloops: bool,
     /// E20 `@@caught ~text => call`: the expression `AssertUnwindSafe(async { BODY }).catch_unwind()`
@@ -318,6 +319,11 @@ fn parse_template(path: &Path, nodes: &mut Vec<Node>) {
                         "subst" => d.substs.push(parse_subst(&rest, &sctx)),
                         "subst?" => d.substs_opt.push(parse_subst(&rest, &sctx)),
                         "macro" => d.macros.push(parse_subst(&rest, &sctx)),
+                        // `@@macro? name => text`: as `@@macro`, but no error when the macro does not occur
+                        "macro?" => {
+                            d.macros.push(parse_subst(&rest, &sctx));
+                            d.macros_opt.push(d.macros.len() - 1);
+                        }
                         "caught" => d.caughts.push(parse_subst(&rest, &sctx)),
                         "spec" => d.spec = multiline(&mut i),
                         "pre" => d.pre = multiline(&mut i),
@@ -695,6 +701,19 @@ impl<'a, 'ast> Visit<'ast> for Ed<'a> {
         // nothing until it is polled) and the catch expression is replaced by the oracle stand-in
         if let syn::Stmt::Local(l) = s {
             if let (syn::Pat::Ident(pi), Some(init)) = (&l.pat, &l.init) {
+                // `let fut = (hook)(..);` .. `AssertUnwindSafe(fut).catch_unwind()`: the user code is CALLED
+                // outside catch_unwind (only the future it returns is polled inside): the call becomes
+                // `vx_unguarded_user_code()` (a stand-in with `requires false`: an obligation that fails)
+                if let syn::Expr::Call(c) = &*init.expr {
+                    let t = self.src[c.span().byte_range()].to_string();
+                    let hit = self.dir.caughts.iter().position(|(anchor, _)| t.starts_with(anchor.trim_start_matches('~').trim()));
+                    if let Some(n) = hit {
+                        self.caught_futs.push((pi.ident.to_string(), n));
+                        let cr = c.span().byte_range();
+                        self.push(cr.start, cr.end, "vx_unguarded_user_code::<()>()", "E20-unguarded-user-code", true);
+                        return;
+                    }
+                }
                 if let syn::Expr::Async(a) = &*init.expr {
                     let body = &self.src[a.block.span().byte_range()];
                     let hit = self.dir.caughts.iter().position(|(anchor, _)| body.contains(anchor.trim_start_matches('~').trim()));
@@ -726,6 +745,22 @@ impl<'a, 'ast> Visit<'ast> for Ed<'a> {
     }
     fn visit_arm(&mut self, e: &'ast syn::Arm) {
         self.node(e);
+        // `@@before anchor` also addresses the body of a match arm that is an expression (not a block):
+        // `pat => expr,` becomes `pat => { <text> expr },`
+        if !matches!(*e.body, syn::Expr::Block(_)) {
+            let r = e.body.span().byte_range();
+            let txt = self.src[r.clone()].trim_start();
+            for (k, (anchor, ins)) in self.dir.befores.iter().enumerate() {
+                if anchor.starts_with('>') {
+                    continue;
+                }
+                if !self.befores_used[k] && anchor_match(txt, anchor.as_str()) {
+                    self.befores_used[k] = true;
+                    self.edits.push(Edit { start: r.start, end: r.start, text: format!("{{ {ins}\n"), kind: "splice-before", swallow: false });
+                    self.edits.push(Edit { start: r.end, end: r.end, text: " }".to_string(), kind: "splice-before", swallow: false });
+                }
+            }
+        }
         visit::visit_arm(self, e);
     }
     fn visit_expr_path(&mut self, e: &'ast syn::ExprPath) {
@@ -802,6 +837,21 @@ impl<'a, 'ast> Visit<'ast> for Ed<'a> {
             self.push(s, s, "let ", "E5-let-underscore", false);
         }
         visit::visit_expr_assign(self, e);
+    }
+    fn visit_expr_call(&mut self, c: &'ast syn::ExprCall) {
+        // E20: a call of user code that is reached here is NOT inside an `async` block run under
+        // catch_unwind (those are replaced as a whole and never visited)
+        if !self.dir.caughts.is_empty() {
+            let t = &self.src[c.span().byte_range()];
+            let hit = self.dir.caughts.iter().position(|(anchor, _)| t.starts_with(anchor.trim_start_matches('~').trim()));
+            if let Some(n) = hit {
+                self.caughts_used[n] += 1;
+                let cr = c.span().byte_range();
+                self.push(cr.start, cr.end, "vx_unguarded_user_code()", "E20-unguarded-user-code", true);
+                return;
+            }
+        }
+        visit::visit_expr_call(self, c);
     }
     fn visit_expr_method_call(&mut self, e: &'ast syn::ExprMethodCall) {
         // E20: `AssertUnwindSafe(async { BODY }).catch_unwind()` -> the declared oracle stand-in
@@ -1134,7 +1184,40 @@ impl<'a, 'ast> Visit<'ast> for Ed<'a> {
         for (k, (n, repl)) in self.dir.macros.iter().enumerate() {
             if *n == name {
                 self.macros_used[k] = true;
-                self.push(r.start, r.end, repl.clone(), "E7-macro-declared", true);
+                // `$fmtarg` = the first value the format string of the macro displays: an inline
+                // capture `{name}`, else the first argument after the format string
+                let mut repl = repl.clone();
+                if repl.contains("$fmtarg") {
+                    let text = &self.src[r.clone()];
+                    let mut arg: Option<String> = None;
+                    let bytes = text.as_bytes();
+                    let mut i = 0;
+                    while i < bytes.len() && arg.is_none() {
+                        if bytes[i] == b'{' {
+                            let j = i + 1;
+                            let mut e = j;
+                            while e < bytes.len() && ((bytes[e] as char).is_alphanumeric() || bytes[e] == b'_') {
+                                e += 1;
+                            }
+                            if e > j && e < bytes.len() && (bytes[e] == b'}' || bytes[e] == b':') && !(bytes[j] as char).is_numeric() {
+                                arg = Some(text[j..e].to_string());
+                            }
+                        }
+                        i += 1;
+                    }
+                    if arg.is_none() {
+                        if let Ok(args) = m.parse_body_with(syn::punctuated::Punctuated::<syn::Expr, syn::Token![,]>::parse_terminated) {
+                            if let Some(a) = args.iter().nth(1) {
+                                arg = Some(self.src[a.span().byte_range()].to_string());
+                            }
+                        }
+                    }
+                    match arg {
+                        Some(a) => repl = repl.replace("$fmtarg", &a),
+                        None => self.errors.push(format!("@@macro {name}: no displayed value found for $fmtarg")),
+                    }
+                }
+                self.push(r.start, r.end, repl, "E7-macro-declared", true);
                 return;
             }
         }
@@ -1359,6 +1442,7 @@ impl<'ast, 'b> Visit<'ast> for BlockFinder<'ast, 'b> {
 struct LetFinder<'b> {
     src: &'b str,
     anchor: &'b str,
+    nth: usize,
     found: Option<String>,
 }
 impl<'ast, 'b> Visit<'ast> for LetFinder<'b> {
@@ -1371,13 +1455,28 @@ impl<'ast, 'b> Visit<'ast> for LetFinder<'b> {
             if anchor_match(stmt_text_no_attrs(self.src, s, r.start, r.end), self.anchor) {
                 let mut ids = vec![];
                 collect_pat_idents(&l.pat, &mut ids);
-                if let Some(id) = ids.first() {
+                if let Some(id) = ids.get(self.nth) {
                     self.found = Some(id.clone());
                     return;
                 }
             }
         }
         visit::visit_stmt(self, s);
+    }
+    /// `if let PAT = EXPR` / `while let PAT = EXPR`: matched on the text of `PAT = EXPR`
+    fn visit_expr_let(&mut self, l: &'ast syn::ExprLet) {
+        if self.found.is_none() {
+            let r = l.span().byte_range();
+            if anchor_match(&self.src[r], self.anchor) || anchor_match(&self.src[l.expr.span().byte_range()], self.anchor) {
+                let mut ids = vec![];
+                collect_pat_idents(&l.pat, &mut ids);
+                if let Some(id) = ids.get(self.nth) {
+                    self.found = Some(id.clone());
+                    return;
+                }
+            }
+        }
+        visit::visit_expr_let(self, l);
     }
 }
 
@@ -2128,7 +2227,10 @@ fn main() {
                 }
                 // `@@bind $name ~anchor`
                 for (ph, anchor) in &d.binds {
-                    let mut lf = LetFinder { src: &src.text, anchor, found: None };
+                    // `$name#k` = the k-th identifier the pattern binds
+                    let (ph, nth) = match ph.split_once('#') { Some((p, k)) => (p.to_string(), k.parse::<usize>().unwrap_or(0)), None => (ph.clone(), 0) };
+                    let ph = &ph;
+                    let mut lf = LetFinder { src: &src.text, anchor, nth, found: None };
                     lf.visit_block(f.block);
                     let id = lf.found.unwrap_or_else(|| die(&format!("{ctx}: @@bind anchor matches no `let` statement: {anchor}")));
                     text = text.replace(ph.as_str(), &id);
@@ -2174,7 +2276,7 @@ fn main() {
                     "awaits_erased": ed.awaits,
                     "closures": ed.closure_idx, "loops": ed.loop_idx,
                     "has_requires": spec_has_requires(&d.spec),
-                    "key": key_sel, "variants": n_variants, "variant": vsel, "closures_unspecified": ed.closures_unspecified,
+                    "key": key_sel, "variants": n_variants, "variant": vsel, "closures_unspecified": ed.closures_unspecified, "loops_unspecified": ed.loop_idx.saturating_sub(ed.loops_used.len()),
                     "stubbed": stub_this,
                     "edits": counts,
                 }));
@@ -2248,7 +2350,7 @@ fn check_used(ed: &Ed, d: &FnDir, ctx: &str) {
         }
     }
     for (k, (a, _)) in d.macros.iter().enumerate() {
-        if !ed.macros_used[k] {
+        if !ed.macros_used[k] && !d.macros_opt.contains(&k) {
             die(&format!("{ctx}: @@macro {a}! not found"));
         }
     }
@@ -2270,6 +2372,8 @@ fn collect_pat_idents(p: &syn::Pat, out: &mut Vec<String>) {
         syn::Pat::Tuple(t) => { for e in &t.elems { collect_pat_idents(e, out); } }
         syn::Pat::Type(t) => collect_pat_idents(&t.pat, out),
         syn::Pat::Reference(r) => collect_pat_idents(&r.pat, out),
+        syn::Pat::TupleStruct(t) => { for e in &t.elems { collect_pat_idents(e, out); } }
+        syn::Pat::Paren(p) => collect_pat_idents(&p.pat, out),
         _ => {}
     }
 }
